@@ -576,6 +576,112 @@ def builtin_connect_failure_case(ctx, workdir: str, name: str) -> None:
         ctx.violation("saver-leak-on-connect-failure", f"{name}: tasks left behind {result['leftovers']}", case)
 
 
+def traffic_exit_case(ctx, workdir: str, transport_kind: str, k: int, ending: str) -> None:
+    """Real traffic inside the context: the body consumes gateway.listen() (presentations, two id requests, sets, a
+    wake, a version report), then the session ends normally / by a body exception / because listen() itself raised a
+    transport failure.  After the exit the abandoned objects are watched for two more virtual save intervals."""
+    from aiomqtt import MqttError
+
+    from aiomysensors.exceptions import TransportFailedError
+    from aiomysensors.gateway import Config, Gateway
+    from aiomysensors.model.node import Node
+
+    path = os.path.join(workdir, "traffic.json")
+    prepare_file(path, "present")
+    case = {"engine": "vloop", "traffic_exit": ending, "transport": transport_kind, "k": k}
+    lines = ["0;255;3;0;2;2.1.0", "255;255;3;0;3;", "255;255;3;0;3;", "5;255;0;0;17;2.1", "5;0;0;0;6;t", "5;0;1;0;0;21.5",
+             "1;1;1;0;49;1,2,3", "5;255;3;0;22;3", "255;7;3;0;3;", "1;255;3;0;0;66"]
+
+    async def scenario() -> dict:
+        transport = make_transport(transport_kind, {"mode": "normal"})
+        gateway = Gateway(transport, Config(persistence_file=path))
+        before = set(asyncio.all_tasks())
+        observed = None
+        state: dict = {}
+        try:
+            async with gateway:
+                if transport_kind == "scripted":
+                    transport.lines.extend(line + "\n" for line in lines)
+                    if ending == "listen-transport-failure":
+                        original_read = transport.read
+
+                        async def failing_read() -> str:
+                            if not transport.lines:
+                                raise TransportFailedError("link lost")
+                            return await original_read()
+
+                        transport.read = failing_read  # type: ignore[method-assign]
+                else:
+                    client = FakeClient.instances[-1]
+                    for line in lines:
+                        n, c, cmd, ack, t, payload = line.split(";", 5)
+                        client.deliver(f"in/{n}/{c}/{cmd}/{ack}/{t}", payload.encode())
+                    if ending == "listen-transport-failure":
+                        client.deliver_error(MqttError("broker went away"))
+                handled = 0
+                iterator = gateway.listen()
+                while handled < len(lines) + (1 if ending == "listen-transport-failure" else 0):
+                    try:
+                        await iterator.__anext__()
+                    except TransportFailedError:
+                        state["final"] = typed(snap(gateway.nodes))
+                        raise
+                    except Exception as exc:  # noqa: BLE001  library errors of single messages do not end the session
+                        if type(exc).__name__ == "ScriptEnd":
+                            break
+                        iterator = gateway.listen()
+                    handled += 1
+                for _ in range(k):
+                    await asyncio.sleep(0)
+                state["final"] = typed(snap(gateway.nodes))
+                if ending == "body-raises":
+                    raise BodyError("body")
+        except BaseException as exc:  # noqa: BLE001
+            observed = exc
+        state.setdefault("final", typed(snap(gateway.nodes)))
+        status0, disk0 = registry_on_disk(path)
+        gateway.nodes[98] = Node(98, 17, "zombie")
+        await asyncio.sleep(2 * SAVE_BOUND + 10)
+        status1, disk1 = registry_on_disk(path)
+        left = [repr(t)[:160] for t in asyncio.all_tasks() if t not in before and t is not asyncio.current_task()
+                and not t.done()]
+        for t in [t for t in asyncio.all_tasks() if t is not asyncio.current_task()]:
+            t.cancel()
+        return {"observed": observed, "final": state["final"], "at_exit": (status0, disk0), "later": (status1, disk1),
+                "left": left, "transport": transport}
+
+    with install() as seam:
+        if transport_kind == "mqtt-fake" and not seam:
+            return
+        result, _loop = run_virtual(scenario)
+        exited = FakeClient.instances[-1].exited if (transport_kind == "mqtt-fake" and FakeClient.instances) else None
+    ctx.case(("traffic-exit", transport_kind, k, ending), sample=case)
+    ctx.clause("exit-after-real-traffic")
+    if isinstance(result, LogicalDeadlock):
+        ctx.violation("context-deadlock", f"logical deadlock in {case}", case)
+        return
+    if isinstance(result, BaseException):
+        ctx.violation("traffic-exit-raised", f"{type(result).__name__}: {result!s:.80}", case)
+        return
+    observed = result["observed"]
+    want = {"normal": type(None), "body-raises": BodyError, "listen-transport-failure": TransportFailedError}[ending]
+    if not isinstance(observed, want):
+        ctx.violation("exit-raises-" + type(observed).__name__, f"{ending}: the session ended with {type(observed).__name__}: "
+                                                                f"{observed!s:.80}", case)
+    transport = result["transport"]
+    if isinstance(transport, ScriptedTransport) and transport.disconnected < 1:
+        ctx.violation("disconnect-not-called", f"{ending} (k={k}): transport.disconnect was not called on exit", case)
+    if exited is not None and exited < 1:
+        ctx.violation("disconnect-not-called", f"{ending} (k={k}): the MQTT client was not exited when the context was left", case)
+    if result["at_exit"] != ("ok", result["final"]):
+        ctx.violation("no-final-save", f"{ending} (k={k}): the file after exit is not the final registry ({result['at_exit'][0]})", case)
+    ctx.clause("nothing-acts-after-exit")
+    if result["later"] != result["at_exit"]:
+        ctx.violation("save-after-exit", f"{ending} (k={k}, {transport_kind}): the file was rewritten after the context was left", case)
+    if result["left"]:
+        ctx.violation("task-left-after-exit", f"{ending} (k={k}, {transport_kind}): tasks alive after exit: {result['left']}", case)
+
+
 def many_sessions_case(ctx, workdir: str, sessions: int) -> None:
     """The same Gateway object through many enter/leave cycles: every session saves on entry and on exit, leaves no task,
     and the number of tasks / timers does not grow."""
@@ -907,6 +1013,8 @@ def run_case(ctx, case: dict) -> None:
     try:
         if "connect_error" in case:
             connect_failure_case(ctx, workdir, case["connect_error"], case["file"])
+        elif "traffic_exit" in case:
+            traffic_exit_case(ctx, workdir, case["transport"], case["k"], case["traffic_exit"])
         elif "many_sessions" in case:
             many_sessions_case(ctx, workdir, case["many_sessions"])
         elif "late_exit_periods" in case:
@@ -955,6 +1063,11 @@ def run(ctx) -> None:
                 for file_state in ("missing", "present"):
                     if ctx.mine():
                         connect_failure_case(ctx, workdir, name, file_state)
+            for transport in ("scripted", "mqtt-fake"):
+                for ending in ("normal", "body-raises", "listen-transport-failure"):
+                    for k in (0, 1, 2, 4, 7, 12, 40):
+                        if ctx.mine():
+                            traffic_exit_case(ctx, workdir, transport, k, ending)
             for periods in (1, 2, 3):
                 for k in range(0, 16):
                     for mode in ("normal", "body-raises"):
